@@ -578,7 +578,7 @@ where
         let mut update_proofs = Vec::<UpdateProof>::new();
         for user_state in &user_data {
             let proof = self
-                .create_single_update_proof(akd_label, user_state)
+                .create_single_update_proof(&current_azks, akd_label, user_state)
                 .await?;
             update_proofs.push(proof);
         }
@@ -792,6 +792,7 @@ where
     #[cfg_attr(feature = "tracing_instrument", tracing::instrument(skip_all))]
     async fn create_single_update_proof(
         &self,
+        current_azks: &Azks,
         akd_label: &AkdLabel,
         user_state: &ValueState,
     ) -> Result<UpdateProof, AkdError> {
@@ -804,7 +805,9 @@ where
             .get_node_label::<TC>(akd_label, VersionFreshness::Fresh, version)
             .await?;
 
-        let current_azks = self.retrieve_azks().await?;
+        // Note: the membership proofs below must be generated against the same epoch as the rest
+        // of the history proof (and the root hash returned with it), so the caller's aZKS is used
+        // rather than re-reading it from storage, where a concurrent publish may have advanced it.
         let existence_vrf = self
             .vrf
             .get_label_proof::<TC>(akd_label, VersionFreshness::Fresh, version)
